@@ -12,6 +12,7 @@ import GormModel.Lemmas.TxFault
 import GormModel.Gen.StageSinks
 import GormModel.Lemmas.Stages
 import GormModel.Gen.EnclFacts
+import GormModel.Gen.UpsertKeyFacts
 namespace Gorm
 open Gen
 
@@ -473,6 +474,29 @@ example :
     (Stg.createInBatches { inTx := true, skipDefault := false, disableNested := false } 3 1
       { rows := [7], err := none, log := [] }
       [[⟨1, none, false⟩], [⟨2, none, false⟩], [⟨3, some "boom", true⟩]]).rows = [7] := by
+  decide
+
+/-- ROUND 6. Save's INSERT fallback (`tx.Session(&Session{…}).Clauses(OnConflict{UpdateAll}).Create(value)`, the only nested
+    `Create` of DB.Save that is reached through a Session literal) derives its handle with exactly the key `SkipHooks`:
+    nothing in the literal switches the implicit transaction of the fallback's Create pipeline off (that pipeline still
+    saves association records and join rows and has to be all-or-nothing in itself). Regenerated: Gen/UpsertKeyFacts. -/
+theorem C05_save_fallback_session :
+    (finisherNestedCalls.filter (fun c => c.fn == "DB.Save" && c.method == "Create" && c.steps.contains "Session")).map
+      (fun c => (c.root, c.steps, c.sess)) = [("tx", ["Session", "Clauses"], ["SkipHooks"])] := by
+  decide
+
+/-- … and the UPDATE phase of Save runs on `tx.Session(&Session{Initialized: true})`; these two are all the Session
+    literals of DB.Save -/
+theorem C05_save_session_literals :
+    (finisherSessionLits.filter (fun l => l.1 == "DB.Save")).map (fun l => l.2.2) = [["Initialized"], ["SkipHooks"]] := by
+  decide
+
+/-- no finisher of finisher_api.go derives a handle with a Session literal that sets `SkipDefaultTransaction` (or
+    re-targets the pool): whether a nested pipeline runs inside an implicit transaction is decided by the caller's
+    configuration alone (C05_nested_sessions for the callbacks package, this one for the finishers) -/
+theorem C05_finishers_keep_default_transaction :
+    finisherSessionLits.all (fun l => !l.2.2.contains "SkipDefaultTransaction" && !l.2.2.contains "ConnPool") = true ∧
+    finisherNestedCalls.all (fun c => !c.sess.contains "SkipDefaultTransaction") = true := by
   decide
 
 end Gorm
